@@ -65,7 +65,7 @@ def z_queries(rep, tier, seed):
     cons = [z3.InRe(s, decl_with), z3.Not(z3.InRe(s, contains))]
     r, m, dt = R.check(cons, 120000)
     rep.zquery('re_encoding_language', 'XMLDecl with EncodingDecl subset of Sigma* RE_ENCODING Sigma*', r, 'unsat', dt,
-               detail={'pattern': pat.decode('latin-1')})
+               detail={'pattern': pat.decode('latin-1')}, handled=True)
     if r == 'sat':
         w = R.z3_unescape(R.model_str(m, s))
         got = cu.read_xml_encoding(w.encode('latin-1'))
@@ -75,7 +75,7 @@ def z_queries(rep, tier, seed):
         else:
             rep.inconclusive.append('RE_ENCODING language query sat (%r) but read_xml_encoding finds %r' % (w, got))
     r2 = R.smtlib_check_with_binary(cons, timeout_s=120)
-    rep.zquery('re_encoding_language', 'same query, z3 4.8.12 binary', r2, 'unsat', 0.0, solver='z3-4.8.12')
+    rep.zquery('re_encoding_language', 'same query, z3 4.8.12 binary', r2, 'unsat', 0.0, solver='z3-4.8.12', cross=True)
     r3, _, dt3 = R.check([z3.InRe(s, decl_with)], 60000)
     rep.zquery('re_encoding_language', 'vacuity twin (grammar is inhabited)', r3, 'sat', dt3)
     bad = R.translate(pat.replace(b'[\\w.\\-]+', b'[A-Za-z][A-Za-z0-9.\\-]*'), flags)
